@@ -2,106 +2,198 @@ import PorepyVerif.C30.Lemmas
 
 namespace PorepyVerif.C30
 
-/-! ### point – segment -/
+/-! ### minima over lists of edges -/
 
-theorem ptSeg_spec (p a b : Vec) (h1 : p.length = a.length) (h2 : a.length = b.length) :
-    0 ≤ (ptSeg p a b).t ∧ (ptSeg p a b).t ≤ 1 ∧ (ptSeg p a b).cp = along a b (ptSeg p a b).t ∧
-      (ptSeg p a b).d2 = nsq (vsub p (ptSeg p a b).cp) := by
-  unfold ptSeg
-  simp only []
-  generalize (if nsq (vsub b a) = 0 then 0 else dot (vsub p a) (vsub b a) / nsq (vsub b a)) = proj
-  split_ifs with h3 h4
-  · exact ⟨le_refl _, by norm_num, (along_zero a b h2).symm, rfl⟩
-  · exact ⟨by norm_num, le_refl _, (along_one a b h2).symm, rfl⟩
-  · exact ⟨by linarith, by linarith, rfl, rfl⟩
+theorem minPtSeg_spec (p : Vec) (es : List (Vec × Vec)) (o : PtSegOut) (h : minPtSeg p es = some o) :
+    (∀ g ∈ es, o.d2 ≤ (ptSeg p g.1 g.2).d2) ∧ ∃ g ∈ es, o = ptSeg p g.1 g.2 := by
+  induction es generalizing o with
+  | nil => simp [minPtSeg] at h
+  | cons g gs ih =>
+    unfold minPtSeg at h
+    simp only [] at h
+    cases hm : minPtSeg p gs with
+    | none =>
+      rw [hm] at h
+      simp only [Option.some.injEq] at h
+      have hgs : gs = [] := by
+        cases gs with
+        | nil => rfl
+        | cons g' gs' =>
+          unfold minPtSeg at hm
+          simp only [] at hm
+          cases h' : minPtSeg p gs' <;> rw [h'] at hm <;> simp at hm
+          split at hm <;> simp at hm
+      subst hgs
+      subst h
+      exact ⟨fun g' hg' => by simp at hg'; rw [hg'], ⟨g, by simp, rfl⟩⟩
+    | some o' =>
+      rw [hm] at h
+      simp only [] at h
+      obtain ⟨ih1, g', hg', ih2⟩ := ih o' hm
+      split at h
+      · rename_i hlt
+        simp only [Option.some.injEq] at h
+        subst h
+        refine ⟨fun g'' hg'' => ?_, ⟨g', List.mem_cons_of_mem _ hg', ih2⟩⟩
+        rcases List.mem_cons.mp hg'' with rfl | hin
+        · exact hlt.le
+        · exact ih1 _ hin
+      · rename_i hlt
+        simp only [Option.some.injEq] at h
+        subst h
+        refine ⟨fun g'' hg'' => ?_, ⟨g, by simp, rfl⟩⟩
+        rcases List.mem_cons.mp hg'' with rfl | hin
+        · exact le_refl _
+        · exact le_trans (not_lt.mp hlt) (ih1 _ hin)
 
-theorem ptSeg_min (p a b : Vec) (h1 : p.length = a.length) (h2 : a.length = b.length)
-    (s : Rat) (hs0 : 0 ≤ s) (hs1 : s ≤ 1) :
-    (ptSeg p a b).d2 ≤ nsq (vsub p (along a b s)) := by
-  rw [nsq_sub_along p a b s h1 h2]
-  have huu : 0 ≤ nsq (vsub b a) := nsq_nonneg _
-  unfold ptSeg
-  simp only []
-  by_cases hl : nsq (vsub b a) = 0
-  · -- zero-length segment
-    have hz : dot (vsub p a) (vsub b a) = 0 := by
-      rw [dot_comm]; exact dot_eq_zero_of_nsq_eq_zero _ _ hl
-    rw [if_pos hl, if_pos (le_refl _)]
-    simp only []
-    rw [hz, hl]; simp
-  · rw [if_neg hl]
-    have hpos : 0 < nsq (vsub b a) := lt_of_le_of_ne huu (Ne.symm hl)
-    split_ifs with h3 h4
-    · -- projection before the start
-      have hw : dot (vsub p a) (vsub b a) ≤ 0 := by
-        by_contra h
-        have : 0 < dot (vsub p a) (vsub b a) / nsq (vsub b a) := div_pos (not_le.mp h) hpos
-        linarith
-      simp only []
-      nlinarith [mul_nonneg hs0 (neg_nonneg.mpr hw), mul_nonneg (mul_nonneg hs0 hs0) huu]
-    · -- projection beyond the end
-      have hw : nsq (vsub b a) ≤ dot (vsub p a) (vsub b a) := by
-        have := (le_div_iff₀ hpos).mp h4
-        linarith
-      simp only []
-      have e : nsq (vsub p b) = nsq (vsub p a) - 2 * 1 * dot (vsub p a) (vsub b a) + 1 * 1 * nsq (vsub b a) := by
-        rw [← nsq_sub_along p a b 1 h1 h2, along_one a b h2]
-      rw [e]
-      nlinarith [mul_nonneg (sub_nonneg.mpr hs1) (sub_nonneg.mpr hw), mul_nonneg (sub_nonneg.mpr hs1) (mul_nonneg (sub_nonneg.mpr hs1) huu)]
-    · simp only []
-      have e := nsq_sub_along p a b (dot (vsub p a) (vsub b a) / nsq (vsub b a)) h1 h2
-      unfold along at e
-      rw [e]
-      generalize dot (vsub p a) (vsub b a) = wu
-      generalize nsq (vsub b a) = uu at hpos hl
-      have hne : uu ≠ 0 := ne_of_gt hpos
-      have : nsq (vsub p a) - 2 * s * wu + s * s * uu - (nsq (vsub p a) - 2 * (wu / uu) * wu + wu / uu * (wu / uu) * uu)
-          = uu * ((s - wu / uu) * (s - wu / uu)) := by field_simp; ring
-      nlinarith [mul_nonneg hpos.le (mul_self_nonneg (s - wu / uu))]
+theorem minPtSeg_none (p : Vec) (es : List (Vec × Vec)) (h : minPtSeg p es = none) : es = [] := by
+  cases es with
+  | nil => rfl
+  | cons g gs =>
+    unfold minPtSeg at h
+    simp only [] at h
+    cases h' : minPtSeg p gs <;> rw [h'] at h <;> simp at h
+    split at h <;> simp at h
 
-/-! ### segment – segment -/
+theorem minSegSeg_spec (tol : Rat) (s e : Vec) (es : List (Vec × Vec)) (o : SegSegOut)
+    (h : minSegSeg tol s e es = some o) :
+    (∀ g ∈ es, o.d2 ≤ (segSeg tol s e g.1 g.2).d2) ∧ ∃ g ∈ es, o = segSeg tol s e g.1 g.2 := by
+  induction es generalizing o with
+  | nil => simp [minSegSeg] at h
+  | cons g gs ih =>
+    unfold minSegSeg at h
+    simp only [] at h
+    cases hm : minSegSeg tol s e gs with
+    | none =>
+      rw [hm] at h
+      simp only [Option.some.injEq] at h
+      have hgs : gs = [] := by
+        cases gs with
+        | nil => rfl
+        | cons g' gs' =>
+          unfold minSegSeg at hm
+          simp only [] at hm
+          cases h' : minSegSeg tol s e gs' <;> rw [h'] at hm <;> simp at hm
+          split at hm <;> simp at hm
+      subst hgs
+      subst h
+      exact ⟨fun g' hg' => by simp at hg'; rw [hg'], ⟨g, by simp, rfl⟩⟩
+    | some o' =>
+      rw [hm] at h
+      simp only [] at h
+      obtain ⟨ih1, g', hg', ih2⟩ := ih o' hm
+      split at h
+      · rename_i hlt
+        simp only [Option.some.injEq] at h
+        subst h
+        refine ⟨fun g'' hg'' => ?_, ⟨g', List.mem_cons_of_mem _ hg', ih2⟩⟩
+        rcases List.mem_cons.mp hg'' with rfl | hin
+        · exact hlt.le
+        · exact ih1 _ hin
+      · rename_i hlt
+        simp only [Option.some.injEq] at h
+        subst h
+        refine ⟨fun g'' hg'' => ?_, ⟨g, by simp, rfl⟩⟩
+        rcases List.mem_cons.mp hg'' with rfl | hin
+        · exact le_refl _
+        · exact le_trans (not_lt.mp hlt) (ih1 _ hin)
 
-theorem segSeg_fields (tol : Rat) (p0 p1 q0 q1 : Vec) :
-    let st := segSegParams tol (nsq (vsub p1 p0)) (dot (vsub p1 p0) (vsub q1 q0)) (nsq (vsub q1 q0))
-      (dot (vsub p1 p0) (vsub p0 q0)) (dot (vsub q1 q0) (vsub p0 q0))
-    (segSeg tol p0 p1 q0 q1).s = st.1 ∧ (segSeg tol p0 p1 q0 q1).t = st.2 ∧
-    (segSeg tol p0 p1 q0 q1).cp1 = along p0 p1 st.1 ∧ (segSeg tol p0 p1 q0 q1).cp2 = along q0 q1 st.2 ∧
-    (segSeg tol p0 p1 q0 q1).d2 = nsq (vsub (vadd (vsub p0 q0) (smul st.1 (vsub p1 p0))) (smul st.2 (vsub q1 q0))) ∧
-    (segSeg tol p0 p1 q0 q1).exact = exactRegime tol (nsq (vsub p1 p0)) (dot (vsub p1 p0) (vsub q1 q0)) (nsq (vsub q1 q0))
-      (dot (vsub p1 p0) (vsub p0 q0)) (dot (vsub q1 q0) (vsub p0 q0)) :=
-  ⟨rfl, rfl, rfl, rfl, rfl, rfl⟩
+/-! ### planes -/
 
-theorem segSeg_on_segs (tol : Rat) (htol : 0 < tol) (p0 p1 q0 q1 : Vec)
-    (h1 : p0.length = p1.length) (h2 : p0.length = q0.length) (h3 : q0.length = q1.length) :
-    let o := segSeg tol p0 p1 q0 q1
-    0 ≤ o.s ∧ o.s ≤ 1 ∧ 0 ≤ o.t ∧ o.t ≤ 1 ∧ o.cp1 = along p0 p1 o.s ∧ o.cp2 = along q0 q1 o.t ∧
-      o.d2 = nsq (vsub o.cp1 o.cp2) := by
-  obtain ⟨e1, e2, e3, e4, e5, _⟩ := segSeg_fields tol p0 p1 q0 q1
-  intro o
-  show 0 ≤ (segSeg tol p0 p1 q0 q1).s ∧ (segSeg tol p0 p1 q0 q1).s ≤ 1 ∧ 0 ≤ (segSeg tol p0 p1 q0 q1).t ∧ (segSeg tol p0 p1 q0 q1).t ≤ 1 ∧
-    (segSeg tol p0 p1 q0 q1).cp1 = along p0 p1 (segSeg tol p0 p1 q0 q1).s ∧ (segSeg tol p0 p1 q0 q1).cp2 = along q0 q1 (segSeg tol p0 p1 q0 q1).t ∧
-    (segSeg tol p0 p1 q0 q1).d2 = nsq (vsub (segSeg tol p0 p1 q0 q1).cp1 (segSeg tol p0 p1 q0 q1).cp2)
-  obtain ⟨b0, b1, b2, b3⟩ := params_bounds (tol := tol) (b := dot (vsub p1 p0) (vsub q1 q0))
-    (d := dot (vsub p1 p0) (vsub p0 q0)) (e := dot (vsub q1 q0) (vsub p0 q0))
-    (nsq_nonneg (vsub p1 p0)) (nsq_nonneg (vsub q1 q0)) htol
-  rw [e1, e2, e3, e4, e5]
-  exact ⟨b0, b1, b2, b3, rfl, rfl, by rw [dist_eq p0 p1 q0 q1 _ _ h1 h2 h3]⟩
+theorem vsub_vsub_cancel (x y : Vec) (h : x.length = y.length) : vsub x (vsub x y) = y := by
+  induction x generalizing y with
+  | nil => cases y with
+    | nil => rfl
+    | cons b bs => simp at h
+  | cons a as ih => cases y with
+    | nil => simp at h
+    | cons b bs => simp at h; simp [ih bs h]
 
-theorem segSeg_min (tol : Rat) (htol : 0 < tol) (p0 p1 q0 q1 : Vec)
-    (h1 : p0.length = p1.length) (h2 : p0.length = q0.length) (h3 : q0.length = q1.length)
-    (hreg : (segSeg tol p0 p1 q0 q1).exact = true)
-    (s t : Rat) (hs0 : 0 ≤ s) (hs1 : s ≤ 1) (ht0 : 0 ≤ t) (ht1 : t ≤ 1) :
-    (segSeg tol p0 p1 q0 q1).d2 ≤ nsq (vsub (along p0 p1 s) (along q0 q1 t)) := by
-  obtain ⟨_, _, _, _, e5, e6⟩ := segSeg_fields tol p0 p1 q0 q1
-  rw [e6] at hreg
-  rw [e5, dist_eq p0 p1 q0 q1 _ _ h1 h2 h3, nsq_along_along p0 p1 q0 q1 _ _ h1 h2 h3,
-    nsq_along_along p0 p1 q0 q1 s t h1 h2 h3]
-  have hl : (vsub p1 p0).length = (vsub q1 q0).length := by
-    rw [length_vsub _ _ h1.symm, length_vsub _ _ h3.symm]; omega
-  have G := gram_of_vectors (vsub p1 p0) (vsub q1 q0) (vsub p0 q0) hl
-  have K := params_kkt G htol hreg
-  have := kkt_min G.hQ K hs0 hs1 ht0 ht1
-  unfold quad at this
+theorem nsq_smul (k : Rat) (v : Vec) : nsq (smul k v) = k * k * nsq v := by
+  unfold nsq; rw [dot_smul_left, dot_smul_right]; ring
+
+/-- the projection lies in the plane -/
+theorem projPlane_in_plane (c n x : Vec) (hc : c.length = x.length) (hn : n.length = x.length) (hnn : nsq n ≠ 0) :
+    dot (vsub (projPlane c n x) c) n = 0 := by
+  unfold projPlane
+  have l1 : (smul (dot (vsub x c) n / nsq n) n).length = x.length := by simp [hn]
+  have l2 : (vsub x (smul (dot (vsub x c) n / nsq n) n)).length = c.length := by
+    rw [length_vsub _ _ l1.symm, hc]
+  rw [dot_vsub_left _ _ _ l2, dot_vsub_left _ _ _ l1.symm, dot_smul_left, dot_vsub_left _ _ _ hc.symm]
+  have : dot n n = nsq n := rfl
+  rw [this]
+  field_simp
+  ring
+
+/-- distance from a point to its projection -/
+theorem nsq_to_projPlane (c n x : Vec) (hn : n.length = x.length) (hnn : nsq n ≠ 0) :
+    nsq (vsub x (projPlane c n x)) = dot (vsub x c) n * dot (vsub x c) n / nsq n := by
+  unfold projPlane
+  rw [vsub_vsub_cancel _ _ (by simp [hn]), nsq_smul]
+  field_simp
+
+theorem nsq_split (x q y : Vec) (hy : y.length = x.length) (hq : q.length = x.length) :
+    nsq (vsub x y) = nsq (vsub x q) + 2 * dot (vsub x q) (vsub q y) + nsq (vsub q y) := by
+  unfold nsq
+  induction x generalizing y q with
+  | nil =>
+    have h1 : y = [] := List.length_eq_zero_iff.mp hy
+    have h2 : q = [] := List.length_eq_zero_iff.mp hq
+    subst h1; subst h2; simp
+  | cons a as ih => cases y with
+    | nil => simp at hy
+    | cons b bs => cases q with
+      | nil => simp at hq
+      | cons r rs =>
+        simp at hy hq
+        simp [ih rs bs hy hq]
+        ring
+
+/-- Pythagoras: the projection is the closest point of the plane -/
+theorem projPlane_min (c n x y : Vec) (hc : c.length = x.length) (hn : n.length = x.length) (hy : y.length = x.length)
+    (hnn : nsq n ≠ 0) (hplane : dot (vsub y c) n = 0) :
+    nsq (vsub x (projPlane c n x)) ≤ nsq (vsub x y) := by
+  have hq := projPlane_in_plane c n x hc hn hnn
+  have e1 : vsub x (projPlane c n x) = smul (dot (vsub x c) n / nsq n) n := by
+    unfold projPlane; exact vsub_vsub_cancel _ _ (by simp [hn])
+  have lq : (projPlane c n x).length = x.length := by
+    unfold projPlane; rw [length_vsub _ _ (by simp [hn])]
+  have split := nsq_split x (projPlane c n x) y hy lq
+  have cross : dot (vsub x (projPlane c n x)) (vsub (projPlane c n x) y) = 0 := by
+    rw [e1, dot_smul_left, dot_vsub_right _ _ _ (by rw [lq, hy])]
+    have a1 : dot n (projPlane c n x) = dot c n := by
+      have := hq
+      rw [dot_vsub_left _ _ _ (by rw [lq, hc])] at this
+      rw [dot_comm]; linarith
+    have a2 : dot n y = dot c n := by
+      rw [dot_vsub_left _ _ _ (by rw [hy, hc])] at hplane
+      rw [dot_comm]; linarith
+    rw [a1, a2]; ring
+  rw [split, cross]
+  have := nsq_nonneg (vsub (projPlane c n x) y)
   linarith
+
+/-- points of a segment whose end points lie in the plane lie in the plane -/
+theorem along_in_plane (c n a b : Vec) (s : Rat) (ha : a.length = b.length) (hc : c.length = a.length)
+    (h1 : dot (vsub a c) n = 0) (h2 : dot (vsub b c) n = 0) : dot (vsub (along a b s) c) n = 0 := by
+  have l1 : (along a b s).length = c.length := by rw [length_along _ _ _ ha, hc]
+  rw [dot_vsub_left _ _ _ l1]
+  unfold along
+  rw [dot_vadd_left _ _ _ (by simp [length_vsub _ _ ha.symm, ha]), dot_smul_left, dot_vsub_left _ _ _ ha.symm]
+  rw [dot_vsub_left _ _ _ hc.symm] at h1
+  rw [dot_vsub_left _ _ _ (by rw [← ha, hc])] at h2
+  have e1 : dot a n = dot c n := by linarith
+  have e2 : dot b n = dot c n := by linarith
+  rw [e1, e2]; ring
+
+/-- height over the plane along a segment -/
+theorem along_height (c n a b : Vec) (s : Rat) (ha : a.length = b.length) (hc : c.length = a.length) :
+    dot (vsub (along a b s) c) n = dot (vsub a c) n + s * (dot (vsub b c) n - dot (vsub a c) n) := by
+  have l1 : (along a b s).length = c.length := by rw [length_along _ _ _ ha, hc]
+  rw [dot_vsub_left _ _ _ l1]
+  unfold along
+  rw [dot_vadd_left _ _ _ (by simp [length_vsub _ _ ha.symm, ha]), dot_smul_left, dot_vsub_left _ _ _ ha.symm,
+    dot_vsub_left _ _ _ hc.symm, dot_vsub_left _ _ _ (by rw [← ha, hc])]
+  ring
 
 end PorepyVerif.C30
